@@ -93,7 +93,9 @@ fn mix_set(k: usize, pos: usize) -> (V9Set, usize) {
         6 => (V9Set::Data(258, mix_body(30 + pos, 0)[..8].to_vec()), 1),
         7 => (V9Set::Tpl(vec![mix_tpl(2)], 0), 1),
         8 => (V9Set::Tpl(vec![mix_tpl(3)], 0), 1),
-        _ => (V9Set::Tpl(vec![mix_tpl(4)], 0), 1),
+        9 => (V9Set::Tpl(vec![mix_tpl(4)], 0), 1),
+        // an options template under the id the plain templates use: the id changes kind
+        _ => (V9Set::OptTpl(vec![V9OptTpl { id: 256, scope: vec![fs(2, 2)], opts: vec![fs(34, 2), fs(36, 4)] }], 2), 1),
     }
 }
 
@@ -177,13 +179,13 @@ pub fn streams(tier: &str) -> Vec<StreamGen> {
         };
                 v.push(stream_gen("v9-options-templates", ns * no * 16, mk));
     }
-    // 4. flowset mixes: all sequences of <= 3 (thorough 5) sets over a 10-set menu x prior context x count convention
+    // 4. flowset mixes: all sequences of <= 3 (thorough 5) sets over an 11-set menu x prior context x count convention
     {
-        let maxlen = if thorough { 6 } else { 3 };
-        let nl = list_count(10, maxlen);
+        let maxlen = if thorough { 5 } else { 3 };
+        let nl = list_count(11, maxlen);
         let mk = move |i: u64| -> Vec<Vec<u8>> {
             let d = digits(i, &[nl, 2, 2]);
-            let seq = list_at(10, maxlen, d[0]);
+            let seq = list_at(11, maxlen, d[0]);
             let mut sets = vec![];
             let mut nrecords = 0;
             for (pos, k) in seq.iter().enumerate() {
@@ -247,7 +249,7 @@ pub fn run(tier: &str) -> i32 {
         prop: "C04".into(),
         tier: tier.into(),
         level: "model_checking",
-        rule: "every index of each space is a conformant V9 stream (1..3 calls on one fresh parser) built from finite menus: every field type 1..=520(+extras) x every supported width x value menu x delivery x padding; all lists of class representatives of length <= 2 (thorough 5) x records x padding x delivery; all scope/option lists; all flowset sequences of length <= 3 (thorough 6) over a 10-set menu x prior context x count convention. Each call's result is compared with the RFC 3954 reference decode; an outcome is distinct by the hash of the canonical results of all calls".into(),
+        rule: "every index of each space is a conformant V9 stream (1..3 calls on one fresh parser) built from finite menus: every field type 1..=520(+extras) x every supported width x value menu x delivery x padding; all lists of class representatives of length <= 2 (thorough 5) x records x padding x delivery; all scope/option lists; all flowset sequences of length <= 3 (thorough 6) over an 11-set menu x prior context x count convention. Each call's result is compared with the RFC 3954 reference decode; an outcome is distinct by the hash of the canonical results of all calls".into(),
         bounds: json!({"history_depth": 3, "multi_field_list_len": if tier=="thorough" {5} else {2}, "flowset_sequence_len": if tier=="thorough" {6} else {3}, "records_per_flowset": "1..=3", "padding": "0..=3"}),
         assumptions: vec!["field number -> (name, value class) is the library's own table (pinned by its lookup snapshot tests)".into(), "count field read as an upper bound on flowsets (C11's reading); a packet extends to the end of the buffer otherwise".into()],
         trusted_base: vec!["refmodel::ref_v9 (RFC 3954 reference decoder) and refmodel::decode".into()],
